@@ -636,7 +636,24 @@ func (f *fam[T]) call(w []string, osrc, odst []T) string {
 		}
 		if w[0] == "pr.split" {
 			ks, vs := pair.SplitPairs(ps)
-			return "ok k=" + f.listNil(ks) + " v=" + f.listNil(vs) + " " + same()
+			// NewPairs and SplitPairs are mutually inverse on every non-nil slice of pairs, the empty one included
+			rt := "na"
+			if ps != nil {
+				rt = "err"
+				if p := vlib.Catch(func() {
+					if back, err := pair.NewPairs(ks, vs); err == nil && len(back) == len(ps) {
+						rt = "ok"
+						for i := range back {
+							if back[i] != ps[i] {
+								rt = "diff"
+							}
+						}
+					}
+				}); p != "" {
+					rt = p
+				}
+			}
+			return "ok k=" + f.listNil(ks) + " v=" + f.listNil(vs) + " " + same() + " rt=" + rt
 		}
 		flat := pair.FlattenPairs(ps)
 		if flat == nil {
